@@ -471,6 +471,23 @@ func iohelpStreamWidths(c *core.Ctx, p *load.Prog, rule string) {
 					got = sliceWidth(f, call.Args[1], "r.buffer", scratch)
 				}
 			}
+			// forwarding to the reader of another type of the same width is the same read
+			if got == -1 && len(f.fd.Body.List) == 1 {
+				if r, ok := f.fd.Body.List[0].(*ast.ReturnStmt); ok && len(r.Results) == 1 {
+					inner, _ := ast.Unparen(r.Results[0]).(*ast.CallExpr)
+					if inner != nil {
+						if tv, isType := f.info.Types[inner.Fun]; isType && tv.IsType() && len(inner.Args) == 1 {
+							inner, _ = ast.Unparen(inner.Args[0]).(*ast.CallExpr)
+						}
+					}
+					if inner != nil && len(inner.Args) == 1 && wire.Canon(inner.Args[0]) == "r" {
+						fn := wire.Canon(inner.Fun)
+						if strings.HasPrefix(fn, "Read") && stemWidth[strings.TrimPrefix(fn, "Read")] == w && fn != "Read"+stem {
+							continue // the callee carries its own obligations
+						}
+					}
+				}
+			}
 			c.Check(rule, "Read"+stem+" reads exactly its width", f.pos(), got == w && target == "r", fmt.Sprintf("io.ReadFull(%s, …) of %d bytes; the wire type is %d bytes and must be read through the ErrorReader", target, got, w))
 			if stem != "Bool" && stem != "Byte" && stem != "Uint8" {
 				src := strings.Join(strings.Fields(srcOf(p, f.fd.Body)), " ")
